@@ -285,6 +285,8 @@ func runC02(c *Ctx) {
 
 	ruleTypeIdentity(c, "C02.7", genPkg)
 	ruleSetVariableInitializer(c, "C02.9")
+	ruleOneNodePerProvider(c, "C02.10")
+	ruleReturnByRecordedIndex(c, "C02.11")
 	ruleGuardReceivers(c, "C02.6")
 	ruleFieldAccessSync(c, "C02.6")
 	ruleSnapshotReadOnly(c, "C02.6")
